@@ -340,7 +340,9 @@ Inductive c09_case :=
 | ShareDialCase (e : dial_err) (waiters dials : nat) (owner_ok : bool) (waiters_ok : list bool)
 | H3ReplayCase (steps : list (h3op * h3obs))
 | H2ReqHdrCase (peer_max : nat) (obs : list (list nat * bool))
-| GoAwayCase (open lasts : list nat) (on_first elsewhere : nat).
+| GoAwayCase (open lasts : list nat) (on_first elsewhere : nat)
+| PipeCase (w : write_report) (reused : bool)
+| FlowCase (window : nat) (unread : list nat) (next : nat) (delivered : bool).
 
 Definition c09_check (c : c09_case) : bool :=
   match c with
@@ -359,4 +361,6 @@ Definition c09_check (c : c09_case) : bool :=
   | H3ReplayCase steps => h3_replay h3_init steps
   | H2ReqHdrCase pm obs => reqhdr_replay pm hsend_init obs
   | GoAwayCase open lasts a b => goaway_case_ok open lasts a b
+  | PipeCase w reused => pipe_case_ok w reused
+  | FlowCase w unread next d => flow_case_ok w unread next d
   end.
